@@ -1783,6 +1783,79 @@ def bulk_source_ok(E, body, events):
     return True, None
 
 
+# ------------------------------------------------------------------------------ Sub: &a - &b  (C08)
+def _probe_of(E, st, seg, X):
+    """outcome of the lookup in container X that was started in this segment"""
+    idx = [i for i, e in enumerate(seg) if e[0] == 'slice' and e[1] == X]
+    if not idx:
+        return None
+    rest = seg[idx[-1]:]
+    hits = [e for e in rest if e[0] == 'hit' and e[1] == X]
+    if hits:
+        return 'hit', hits[-1][2], hits[-1][3]
+    m = E.miss_complete(st, X)
+    if m == ('<empty>',):
+        return 'miss', None, None
+    if m is not None:
+        return 'miss', None, m
+    return 'unknown', None, None
+
+
+def sub_iteration(props):
+    """&a - &b: an element of a is cloned into the result iff it was looked up in b and not found"""
+    def hook(E, body, key, st, seg):
+        operands = [m for m, ms in st.maps.items() if ms.borrowed and not ms.phantom and not ms.dead]
+        fresh = [m for m, ms in st.maps.items() if ms.len0 is None and not ms.dead]
+        if len(operands) != 2 or not fresh:
+            return
+        it = Iteration(E, st, seg)
+        nm = body.name
+        z = st.zone
+        ins = [e for e in seg if e[0] in ('append', 'hit') and e[1] in fresh]
+        if ins:
+            E.iter_classes['kept'] += 1
+            e = ins[-1]
+            ktag = e[3]
+            srcs = _slot_sources(ktag)
+            ok = len(srcs) == 1 and srcs[0][0] in operands and 'clone' in str(ktag).lower()
+            it_req(E, props, 'FLOW', ok, nm + ':kept', 'every element of the result must be a clone of an element of the left operand', it)
+            if not ok:
+                return
+            L, i = srcs[0][0], srcs[0][1]
+            R = [m for m in operands if m != L][0]
+            pr = _probe_of(E, st, seg, R)
+            good = pr is not None and pr[0] == 'miss' and (pr[2] is None or (
+                _is_key_of(pr[2], L) and z.entails_eq(pr[2][2], i)))
+            it_req(E, props, 'POL', good, nm + ':kept',
+                   'an element may enter the result only after it was looked up in the right operand and NOT found '
+                   '(lookup seen: %r)' % (pr,), it)
+            return
+        # no insertion in this iteration: an element that was skipped must have been found in the right operand
+        for R in operands:
+            pr = _probe_of(E, st, seg, R)
+            if pr is not None:
+                E.iter_classes['skipped'] += 1
+                it_req(E, props, 'POL', pr[0] == 'hit', nm + ':skipped',
+                       'an element of the left operand may be left out only when it was found in the right operand '
+                       '(lookup seen: %r)' % (pr,), it)
+                return
+    return hook
+
+
+def h_sub_result(ctx, p):
+    nm = ctx.body.name
+    ctx.classes['built'] += 1
+    mid = map_in(p.E, p.val)
+    ms = p.st.maps.get(mid) if mid else None
+    ctx.req('FLOW', ms is not None and ms.len0 is None, nm, 'the result must be a set built inside the call', p)
+    A = p.subjects_all[0][0] if p.subjects_all and p.subjects_all[0] else None
+    ok = A is not None and any(e[0] == 'cursor-end' and e[1] == A for e in p.events)
+    ctx.req('POL', ok, nm, 'the result may be returned only after every element of the left operand was examined', p)
+    quiet = all(not [e for e in p.events if e[0] in ('read', 'write', 'len', 'store') and e[1] == m]
+                for m, s2 in p.st.maps.items() if s2.borrowed and not s2.phantom)
+    ctx.req('OUT', quiet, nm, 'the operands must not be modified', p)
+
+
 def _pulled_next(e):
     return (e[0] == 'next' and e[-1] == 'Some') or (e[0] == 'user' and e[1].endswith('::Iterator::next')) \
         or (e[0] == 'opaque' and e[1].endswith('::Iterator>::next'))
@@ -1827,6 +1900,7 @@ ITER_HOOKS = {
     ('serialization::Vi', 'Visitor', 'visit_map'): ({'C20'}, lambda pr: bulk_iteration(pr, _pulled_access('next_entry'), _item_of_access), {'item', 'hit', 'append'}),
     ('set::serialization::Vi', 'Visitor', 'visit_seq'): ({'C20'}, lambda pr: bulk_iteration(pr, _pulled_access('next_element'), _item_of_access), {'item', 'hit', 'append'}),
     (MAP, None, 'get_disjoint_mut'): ({'C13'}, precheck_iteration, {'compared'}),
+    ('&set::Set', 'Sub', 'sub'): ({'C08'}, sub_iteration, {'kept', 'skipped'}),
     (SET, 'Extend', 'extend'): ({'C16', 'C07'}, lambda pr: bulk_iteration(pr, _pulled_cb, _item_of_cb), {'item', 'hit', 'append'}),
 }
 
@@ -2131,12 +2205,14 @@ HANDLERS.update({
     (SET, None, 'new'): ({'C07', 'C05'}, h_new),
     (SET, 'Default', 'default'): ({'C07', 'C05'}, h_new),
     (MAP, None, 'with_capacity'): ({'C03'}, h_with_capacity),
+    ('&set::Set', 'Sub', 'sub'): ({'C08'}, h_sub_result),
     (MAP, None, 'clear'): ({'C01'}, h_clear),
     (SET, None, 'clear'): ({'C07'}, h_clear),
 })
 
 
 CLASSES[(SET, 'Extend', 'extend')] = {'extended'}
+CLASSES[('&set::Set', 'Sub', 'sub')] = {'built'}
 # insert_unchecked: "full map, key present" is inside the contract: replacing must return normally there too
 CLASSES[(MAP, None, 'insert_unchecked')] = {'hit', 'append', 'hit@no-append', 'hit@not-full'}
 CLASSES[(MAP, None, 'get_disjoint_unchecked_mut')] = {'returned'}
